@@ -25,6 +25,8 @@ struct PeerPlan {
     chokes: bool,
     /// choke us right after the first block and unchoke 150 ms later, while the other peers go on serving
     choke_first: bool,
+    /// a leecher: declares interest in us after its bitfield (and stays connected like every honest peer)
+    interested: bool,
 }
 
 fn msg(id: u8, payload: &[u8]) -> Vec<u8> {
@@ -108,6 +110,9 @@ fn run_peer(
         return;
     }
     if plan.drop_after == Some(0) && !plan.drop_mid {
+        return;
+    }
+    if plan.interested && !write_segmented(&mut s, &msg(2, &[]), &mut r) {
         return;
     }
     let mut buf: Vec<u8> = vec![];
@@ -227,8 +232,10 @@ pub fn child(seed: u64, pl: usize, lens: &str, honest: usize, droppers: usize, m
     // mode: 0 = one honest peer leaves once everything is stored, 1 = everybody stays,
     //       2/3 = the same with every piece at exactly one peer and the first peer slow,
     //       4 = every peer has everything; the first one chokes us after its first block for 150 ms (then as 0)
-    let stay = mode == 1 || mode == 3;
-    let disjoint = mode == 2 || mode == 3;
+    //       5 = a crowd of leechers: every piece at exactly one peer, every peer interested in us, everybody stays
+    let crowd = mode == 5;
+    let stay = mode == 1 || mode == 3 || crowd;
+    let disjoint = mode == 2 || mode == 3 || crowd;
     let choke_race = mode == 4;
     let chokes = seed % 3 == 0;
     std::panic::set_hook(Box::new(|_| {
@@ -277,12 +284,12 @@ pub fn child(seed: u64, pl: usize, lens: &str, honest: usize, droppers: usize, m
         }
     }
     for h in 0..honest {
-        let slow_ms = if disjoint && h == 0 { 150 } else { 0 };
-        plans.push(PeerPlan { pieces: own[h].clone(), drop_after: None, drop_mid: false, seed: r.next(), slow_ms, chokes, choke_first: choke_race && h == 0 });
+        let slow_ms = if disjoint && !crowd && h == 0 { 150 } else { 0 };
+        plans.push(PeerPlan { pieces: own[h].clone(), drop_after: None, drop_mid: false, seed: r.next(), slow_ms, chokes, choke_first: choke_race && h == 0, interested: crowd });
     }
     for _ in 0..droppers {
         let pieces: Vec<bool> = (0..npieces).map(|_| r.coin()).collect();
-        plans.push(PeerPlan { pieces, drop_after: Some(r.below(3) as usize), drop_mid: r.coin(), seed: r.next(), slow_ms: 0, chokes: false, choke_first: false });
+        plans.push(PeerPlan { pieces, drop_after: Some(r.below(3) as usize), drop_mid: r.coin(), seed: r.next(), slow_ms: 0, chokes: false, choke_first: false, interested: false });
     }
     r.shuffle(&mut plans);
     let stop = Arc::new(AtomicBool::new(false));
@@ -420,7 +427,18 @@ pub fn gen(r: &mut Rng, n: usize) -> Vec<String> {
     let mut out = vec![];
     for k in 0..n {
         // scenario families that matter for the bookkeeping, then free mixtures
-        let family = k % 5;
+        let family = k % 6;
+        if family == 5 {
+            // a crowd of leechers: more listed peers than the client connects to at once, every piece at exactly one of
+            // them, all of them interested in us and staying connected to the end
+            let pl = *r.pick(&[16usize, 100, 16384]);
+            let honest = *r.pick(&[2usize, 5, 11, 12, 13, 15]);
+            let npieces = honest + r.below(3) as usize;
+            let total = pl * npieces - r.below(pl as u64) as usize;
+            let lens_s = if r.coin() { total.to_string() } else { format!("{},{}", total / 3, total - total / 3) };
+            out.push(format!("e2e {} {} {} {} 0 5", r.below(1 << 30), pl, lens_s, honest));
+            continue;
+        }
         let pl = match family {
             1 => *r.pick(&[16usize, 100, 16384, 20000]),
             2 => *r.pick(&[20000usize, 40000]), // several blocks per piece
